@@ -109,6 +109,10 @@ fn main() {
             if mm > 0 {
                 d_lzma::memlimit_matrix(&prop, seed, mm, &mut rep);
             }
+            let fp = a.num("fab-probes", 0) as usize;
+            if fp > 0 {
+                d_lzma::fab_probes(&prop, seed, fp, &mut rep);
+            }
             let walks = a.num("walks", 0) as usize;
             if walks > 0 {
                 d_lzma::walks(&prop, seed, walks, a.num("walk-syms", 400) as usize, &mut rep);
@@ -132,6 +136,9 @@ fn main() {
             let mut rep = Report::new("xz");
             if let Some(p) = a.get("export") {
                 d_xz::replay_export(p, &prop, seed, a.num("limit", 50000) as usize, &mut rep);
+            }
+            if a.get("big-valid").is_some() {
+                d_xz::big_valid(&prop, &mut rep);
             }
             let nf = a.num("flip-files", 0) as usize;
             if nf > 0 {
@@ -209,8 +216,10 @@ fn main() {
             let mut rep = Report::new("replay");
             match case["kind"].as_str().unwrap_or("") {
                 "lzma" => d_lzma::replay_value(case, &prop, &mut rep),
+                "bytes" => d_lzma::replay_bytes(case, &prop, &mut rep),
                 "stream" => d_stream::replay_value(case, &prop, &mut rep),
                 "xz" | "xzbytes" => d_xz::replay_value(case, &prop, &mut rep),
+                "xzbig" => d_xz::big_valid(&prop, &mut rep),
                 "lzma2" => d_lzma2::replay_value(case, &prop, &mut rep),
                 "io" => d_io::replay_value(case, &prop, &mut rep),
                 "reader" => d_reader::replay_value(case, &prop, &mut rep),
